@@ -63,6 +63,10 @@ pub fn run_history(hist: &Value, out: &mut dyn Write) {
         let pm = tok::cells_to_string(op.get("pm").unwrap_or(&Value::Null));
         let template = if kind == "bar" {
             format!("{}{{bar:{}{}}}{}", lit(&pre), al, w, lit(&suf))
+        } else if kind == "wide2l" {
+            // two lines with a wide element each; the first one has another alignment (pw: 1 "<", 2 "^", 3 ">"); the second line is the one that is judged
+            let a1 = match op["pw"].as_u64().unwrap_or(1) { 2 => "^", 3 => ">", _ => "<" };
+            format!("{{wide_msg:{}}}\n{}{{wide_msg:{}}}{}", a1, lit(&pre), al, lit(&suf))
         } else if kind == "wide2" {
             // the text in front of the wide element comes from another field ({prefix:P}); `pre` is its expected rendering and is not part of the template
             format!("{{prefix:{}}} {{wide_msg:{}}}{}", op["pw"].as_u64().unwrap_or(0), al, lit(&suf))
@@ -79,7 +83,7 @@ pub fn run_history(hist: &Value, out: &mut dyn Write) {
                 .with_finish(ProgressFinish::Abandon).with_style(style);
             let pb = if kind == "wide2" { pb.with_message(m.clone()).with_prefix(pm.clone()) } else if kind == "bar" { pb.with_position(5) } else if kind == "prefix" { pb.with_prefix(m.clone()).with_message("zzzzzzzzzzzz") } else { pb.with_message(m.clone()).with_prefix("zzzzzzzzzzzz") };
             pb.tick();
-            let strs = painted_strs(&spy, 1);
+            let strs = if kind == "wide2l" { let mut v = painted_strs(&spy, 2); if v.len() >= 2 { v.remove(0); } else { v.clear(); } v } else { painted_strs(&spy, 1) };
             spy.set_size(80, 100);     // the implicit final draw on drop is not part of the observation; keep it cheap
             (strs, String::new())
         }));
